@@ -7,6 +7,7 @@ CONSTANTS KindA = "stream"
           Credits = {1}
           MaxGrants = 0
           HasPub = FALSE
+          Frag = 0
           LibSource = FALSE
 INVARIANT NoClauseFails
 INVARIANT DeliveredIsPrefixOfHanded
